@@ -368,11 +368,15 @@ void suite_rsmat(int tier) {
         if (k + m > 32) m = 32 - k;
         cfg_t c = { 6, k, m, m, 1 };
         size_t bs = 2 * (1 + (t % 8)) + (rnd(4) == 0 ? 16 * rnd(20) : 0);
+        if (t % 20 == 7) { bs = 2 * (8192 + rnd(200000)); if (k > 6) k = 1 + (int)rnd(6); if (m > 3) m = 1 + (int)rnd(3); c = (cfg_t){ 6, k, m, m, 1 }; }   /* bulk paths; oracle only for the bytes */
         size_t len = (size_t)k * bs - (rnd(3) == 0 ? rnd(2 * k) % (k * bs) : 0);
         if (len == 0) len = 1;
         unsigned char *d = gen_data(len, (int)rnd(3));
         stripe_t s;
-        if (op_enc(c, 0, d, len, &s) != 0) { oracle_fail("C04", "encode failed for (%d,%d)", k, m); free(d); continue; }
+        int erc;
+        if (bs > 4096) { erc = stripe_make(&s, c, len, 0, 0); }     /* large: the independent matrix*data oracle below, no model line */
+        else erc = op_enc(c, 0, d, len, &s);
+        if (erc != 0) { oracle_fail("C04", "encode failed for (%d,%d)", k, m); free(d); continue; }
         free(d);
         int *mat = make_systematic_matrix(k, m);
         uint64_t pb = s.flen - HDR;
